@@ -89,12 +89,16 @@ def stub_model(theta, N, seed):  # noqa: N803
     out[:d, 0] = theta
     out[d, 0] = N
     out[d + 1, 0] = seed
+    whole = bool(np.all(out[:d, 0] == np.floor(out[:d, 0])))
     if STATE.get("model_mutates"):
         # sloppy but legal user code: the model normalises / clamps its parameter argument in place after using it
         try:
             theta[...] = np.floor(theta)
         except (TypeError, ValueError):
             pass
+    if STATE.get("model_mixed_dtype") and whole:
+        # a model whose output type depends on its parameters: whole-number parameters give integer "head counts", the others floating-point series
+        return out.astype(np.int64)
     return out
 
 
@@ -203,6 +207,8 @@ def recording():
             raise _fault("sampler")
         out = orig(self, search_space, existing_points, existing_losses)
         calls = getattr(self, "_vp_calls", 0)
+        if not hasattr(self, "_vp_obj"):
+            self._vp_obj = "foreign"        # a sampler object the harness did not build is at work in the calibration (recorded; the oracles say what is wrong)
         prev = rec.setdefault(self._vp_obj, {}).get(calls)
         if prev is not None and not np.array_equal(prev, out):
             rec.setdefault("_conflicts", []).append((self._vp_obj, calls))
@@ -244,6 +250,7 @@ class Scn:
     precision: tuple = (0.5,)
     dedup_passes: int = 0                           # max_deduplication_passes of the stub samplers (0: sample() returns what sample_batch proposed)
     model_mutates: bool = False                     # the stub model overwrites its parameter argument in place after using it
+    model_mixed_dtype: bool = False                 # the stub model returns an integer array for whole-number parameters and a float array otherwise
     alias_slots: tuple = ()                         # (i, j): slot i of the line-up holds the very same sampler object as slot j
     slow_env_reset: float = 0.0                     # seconds the RL environment's reset_state() takes (0 = the stock environment)
     slow_policy_calls: tuple = ()                   # indices of the scripted agent's policy() calls that take 1.4 s
@@ -362,7 +369,9 @@ def dump(cal, scn: Scn) -> str:
         s_sched = f"rl:{sch._halton_sampler_id}:{0 if sch._best_loss is None else 1}:{getattr(sch, '_vp_consumed', 0)}"
     names = class_names()
     table = ";".join(f"{names.index(k)}:{v}" for k, v in cal.samplers_id_table.items())
-    smp = ";".join(f"{cls_index(s)}:{s.batch_size}:{s._vp_obj}:{getattr(s, '_vp_calls', 0)}:"
+    # (a sampler object the harness did not build - it carries no _vp_obj tag - shows as "foreign": the scheduler of the calibration holds something else than
+    # the line-up it was given; the model comparison and the oracles then say what is wrong)
+    smp = ";".join(f"{cls_index(s)}:{s.batch_size}:{getattr(s, '_vp_obj', 'foreign')}:{getattr(s, '_vp_calls', 0)}:"
                    + ("?" if getattr(s, "_vp_entropy", False) else "-" if s.random_state is None else str(int(s.random_state))) for s in sch.samplers)
     return (f"n={cal.n_sampled_params} b={cal.current_batch_index} params=[{ps}] losses=[{ls}] series=[{';'.join(ser)}] "
             f"bn=[{','.join(str(int(x)) for x in cal.batch_num_samp)}] ms=[{','.join(str(int(x)) for x in cal.method_samp)}] "
@@ -393,7 +402,7 @@ def run_real(scn: Scn, model=None):
 
     STATE.update(model_calls=0, loss_calls=0, sampler_calls=0, batch_calls=0, fired=0, b_fault_sample_call=None, faults=set(map(tuple, scn.faults)), dims=scn.dims,
                  loss_table={tuple(f2h(x) for x in k): v for k, v in scn.loss_table.items()}, loss_default=scn.loss_default,
-                 loss_fn=scn.loss_fn, loss_seen={}, real_args=set(), fault_base=bool(getattr(scn, "fault_base", False)), keep_buffers=bool(getattr(scn, "keep_buffers", False)), fault_class=getattr(scn, "fault_class", None), dedup_passes=int(getattr(scn, "dedup_passes", 0)), model_mutates=bool(getattr(scn, "model_mutates", False)))
+                 loss_fn=scn.loss_fn, loss_seen={}, real_args=set(), fault_base=bool(getattr(scn, "fault_base", False)), keep_buffers=bool(getattr(scn, "keep_buffers", False)), fault_class=getattr(scn, "fault_class", None), dedup_passes=int(getattr(scn, "dedup_passes", 0)), model_mutates=bool(getattr(scn, "model_mutates", False)), model_mixed_dtype=bool(getattr(scn, "model_mixed_dtype", False)))
     next_obj = [0]
     folder = (scn.use_folder or tempfile.mkdtemp(prefix="vpcal")) if (scn.folder or any(o[0] in ("K", "R") for o in scn.ops)) else None
     lines, info = [], {"returns": [], "exc": [], "lineups": []}
@@ -479,6 +488,10 @@ def run_real(scn: Scn, model=None):
                             info.setdefault("swallowed", []).append(len(lines))     # an injected exception was raised inside this call, which returned normally
                         lines.append("ok " + dump(cal, scn) + f" result=[{canon_result(p, l)}]")
                         info["returns"].append((np.array(p), np.array(l)))
+                        if scn.folder and os.path.exists(os.path.join(folder, "calibration_params.json")):
+                            # what an older release or another tool may have left in the folder under a name this version of the code knows (vp/leftovers.py)
+                            from vp import leftovers
+                            info.setdefault("planted", []).extend(leftovers.plant_stale_pickles(folder))
                     except Hang:
                         lines.append("hang:calibrate_did_not_return_within_the_watchdog n=? b=?")
                         info["exc"].append("hang")
@@ -506,6 +519,8 @@ def run_real(scn: Scn, model=None):
                     try:
                         cal.create_checkpoint(folder)
                         lines.append("ok " + dump(cal, scn))
+                        from vp import leftovers
+                        info.setdefault("planted", []).extend(leftovers.plant_stale_pickles(folder))
                     except Exception as e:  # noqa: BLE001
                         lines.append(f"raise:{type(e).__name__}:{str(e)[:60].replace(' ', '_')} n=? b=?")
                 elif op[0] == "R":
